@@ -259,9 +259,12 @@ CLAIMED['C12'] = dict(
          'returned array, written matrix, new ancillaries, reuse of untouched sides, raise / no raise, and agreement of the matrix-level and '
          'digit-level descriptions of the kept columns. Oracle (all five functions): numpy on the N-D form, fibre-wise check of every file element.',
     design='5/C12',
-    note='Partial: (1) mean and std are floating point and are judged by the numpy oracle only; (2) that reshape_from_n_dims puts each fibre value at '
-         'the row / column carrying its coordinates is decided by the correspondence (executable C10 model) and the oracle, not by a theorem '
-         '(the C10 inverse theorem is not proved). Trusted: Coq kernel, harness, dask reductions.',
+    note='Written back (theorem C12_written_back_coordinates, grid datasets in any storage order, at least one dimension left on either side): the '
+         'reduced ancillary matrices are again grid matrices (write_reduced_grid: matrix level = digit level, kept dimensions in the same relative '
+         'order) and element (r,c) of the written matrix is the reduced value at the coordinates the new matrices carry (composition of the C01 '
+         'exact-shape theorem, the fibre lemma and the C10 coordinate-map theorem). Partial: mean and std are floating point and are judged by the '
+         'numpy oracle only; a fully reduced side goes through the squeezed path of reshape_from_n_dims (executable model + correspondence). '
+         'Trusted: Coq kernel, harness, dask reductions.',
     technique='Coq proof (fibre lemma, composition with C01 grid theorem, selected-rows enumeration for the reduced ancillaries) + vm_compute correspondence of the composed pipeline')
 
 CLAIMED['C19'] = dict(
